@@ -601,6 +601,19 @@ func (sc *SpecCtx) call(x *ast.CallExpr) SV {
 				return sc.quant(id.Name, x)
 			case "forallv":
 				return sc.quantv(x)
+			case "rangepos":
+				// rangepos(n): byte position of the n-th string range iterator of the function
+				n := 1
+				if len(x.Args) == 1 {
+					if bl, ok := x.Args[0].(*ast.BasicLit); ok {
+						n, _ = strconv.Atoi(bl.Value)
+					}
+				}
+				if n < 1 || n > len(sc.ex.strIters) {
+					sc.fail("rangepos(%d): no such string iterator (yet)", n)
+				}
+				it := sc.ex.val(sc.ex.strIters[n-1])
+				return SV{sel(q.heapGet(sc.curHeap(), sc.ex.regKey("IT:pos", arrSort(sInt, sInt))), it), types.Typ[types.Int]}
 			case "same":
 				a, b := sc.eval(x.Args[0]), sc.eval(x.Args[1])
 				return SV{eq(a.t, b.t), boolT}
